@@ -418,4 +418,272 @@ theorem extract_tie (L : Lay) (hL : L.WF) (mem : Mem) (h : Heap) (hR : Rep L mem
     rw [(gen c hc).2.2.2, hv, val_setNext, val_setHead, hR c hc, hR (.next x) hx]
     simp only [A_inj L hL c (.next x) hc hx, A_inj L hL c (.head l) hc hl, hnz, if_false, encN, val]
 
+/-! ### iterators: a `list_iterator_t` object at an address foreign to the heap cells -/
+
+/-- the cell a link designates -/
+def cellOf : Link → Cell
+  | .headOf l => .head l
+  | .nextOf n => .next n
+
+def okLink (L : Lay) : Link → Prop
+  | .headOf l => L.okL l
+  | .nextOf n => L.okN n
+
+theorem okLink_ok (L : Lay) (k : Link) (h : okLink L k) : L.ok (cellOf k) := by
+  cases k <;> exact h
+
+theorem val_cellOf (L : Lay) (h : Heap) (k : Link) : val L h (cellOf k) = encN L (load h k) := by
+  cases k <;> rfl
+
+theorem val_store (L : Lay) (h : Heap) (k : Link) (v : Option Node) (c : Cell) :
+    val L (store h k v) c = if c = cellOf k then encN L v else val L h c := by
+  cases k with
+  | headOf l => exact val_setHead L h l v c
+  | nextOf n => exact val_setNext L h n v c
+
+/-- the iterator object at `ia` (two words) holds the model's iterator -/
+structure IterAt (L : Lay) (mem : Mem) (ia : BitVec 64) (it : Iter) : Prop where
+  pn : W mem ia = L.A (cellOf it.prevnext)
+  li : W mem (ia + 8#64) = L.A (.head it.list)
+
+/-- the iterator object overlaps no heap cell -/
+structure Foreign (L : Lay) (ia : BitVec 64) : Prop where
+  s0 : ∀ c, L.ok c → sep (L.A c) ia = true
+  n0 : ∀ c, L.ok c → L.A c ≠ ia
+  s8 : ∀ c, L.ok c → sep (L.A c) (ia + 8#64) = true
+  n8 : ∀ c, L.ok c → L.A c ≠ ia + 8#64
+
+theorem sep_comm (p q : BitVec 64) : sep p q = sep q p := by
+  unfold Mem.sep
+  bv_decide
+
+theorem sep_self8 (p : BitVec 64) : sep p (p + 8#64) = true ∧ sep (p + 8#64) p = true ∧ sep p p = true ∧ p ≠ p + 8#64 := by
+  unfold Mem.sep
+  bv_decide
+
+/-- **tie T, `list_iterate`** -/
+theorem iterate_tie (L : Lay) (mem : Mem) (h : Heap) (hR : Rep L mem h) (l : Lid) (hl : L.okL l)
+    (ia : BitVec 64) (hF : Foreign L ia) :
+    (list_iterate (L.A (.head l)) ia mem).ub = false ∧ (list_iterate (L.A (.head l)) ia mem).exh = false ∧
+    (list_iterate (L.A (.head l)) ia mem).ret = encN L (iterate h l).2 ∧
+    Rep L (list_iterate (L.A (.head l)) ia mem).mem h ∧ IterAt L (list_iterate (L.A (.head l)) ia mem).mem ia (iterate h l).1 := by
+  have hl' : L.ok (.head l) := hl
+  have gen := fun p (h1 : sep p ia = true) (h2 : sep p (ia + 8#64) = true) =>
+    iterate_generated (L.A (.head l)) ia mem p h1 h2 (hF.s0 _ hl') (hF.s8 _ hl') (hF.n0 _ hl') (hF.n8 _ hl')
+  obtain ⟨q1, q2, q3, q4⟩ := sep_self8 ia
+  have g0 := gen ia q3 q1
+  refine ⟨g0.1, g0.2.1, ?_, ?_, ⟨?_, ?_⟩⟩
+  · rw [g0.2.2.1, hR (.head l) hl]; rfl
+  · intro c hc
+    rw [(gen (L.A c) (hF.s0 c hc) (hF.s8 c hc)).2.2.2, if_neg (hF.n0 c hc), if_neg (hF.n8 c hc), hR c hc]
+  · rw [g0.2.2.2, if_pos rfl]; rfl
+  · rw [(gen (ia + 8#64) q2 (by unfold Mem.sep; simp)).2.2.2, if_neg (fun e => q4 e.symm), if_pos rfl]; rfl
+
+/-- **tie T, `list_iterator_next`** -/
+theorem iterator_next_tie (L : Lay) (hL : L.WF) (mem : Mem) (h : Heap) (hR : Rep L mem h) (hC : Closed L h)
+    (ia : BitVec 64) (hF : Foreign L ia) (it : Iter) (hI : IterAt L mem ia it) (hk : okLink L it.prevnext) :
+    (list_iterator_next ia mem).ub = false ∧ (list_iterator_next ia mem).exh = false ∧
+    (list_iterator_next ia mem).ret = encN L (iteratorNext h it).2 ∧
+    Rep L (list_iterator_next ia mem).mem h ∧ IterAt L (list_iterator_next ia mem).mem ia (iteratorNext h it).1 := by
+  have hkc := okLink_ok L _ hk
+  have hcur : W mem (W mem ia) = encN L (load h it.prevnext) := by rw [hI.pn, hR _ hkc, val_cellOf]
+  obtain ⟨q1, q2, q3, q4⟩ := sep_self8 ia
+  cases hld : load h it.prevnext with
+  | none =>
+    have hz : W mem (W mem ia) = 0#64 := by rw [hcur, hld]; rfl
+    have gen := fun p (h1 : sep p ia = true) => iterator_next_generated ia mem p h1 (by rw [hz]; rfl)
+    have he : iteratorNext h it = (it, none) := by unfold iteratorNext; rw [hld]
+    rw [he]
+    have g0 := gen ia q3
+    refine ⟨g0.1, g0.2.1, by rw [g0.2.2.1, hz]; rfl, ?_, ⟨?_, ?_⟩⟩
+    · intro c hc
+      rw [(gen (L.A c) (hF.s0 c hc)).2.2.2, hz, hR c hc]; simp
+    · rw [g0.2.2.2, hz]; simp only [ne_eq, not_true_eq_false, false_and, if_false]; exact hI.pn
+    · rw [(gen (ia + 8#64) q2).2.2.2, hz]; simp only [ne_eq, not_true_eq_false, false_and, if_false]; exact hI.li
+  | some c0 =>
+    have hc0 : L.okN c0 := by
+      cases hkk : it.prevnext with
+      | headOf l => rw [hkk] at hld hk; exact hC.head l c0 hk hld
+      | nextOf n => rw [hkk] at hld hk; exact hC.next n c0 hk hld
+    have hc0' : L.ok (.next c0) := hc0
+    have hv : W mem (W mem ia) = L.A (.next c0) := by rw [hcur, hld]; rfl
+    have hnz : L.A (.next c0) ≠ 0#64 := A_ne0 L hL _ hc0'
+    have gen := fun p (h1 : sep p ia = true) => iterator_next_generated ia mem p h1
+      (by rw [hv, hF.s0 _ hc0']; simp [hF.n0 _ hc0'])
+    have he : iteratorNext h it = ({ it with prevnext := .nextOf c0 }, h.next c0) := by unfold iteratorNext; rw [hld]
+    rw [he]
+    have g0 := gen ia q3
+    refine ⟨g0.1, g0.2.1, ?_, ?_, ⟨?_, ?_⟩⟩
+    · rw [g0.2.2.1, hv, if_neg hnz, hR _ hc0']; rfl
+    · intro c hc
+      rw [(gen (L.A c) (hF.s0 c hc)).2.2.2, hv, hR c hc]
+      simp only [ne_eq, hnz, not_false_eq_true, true_and, hF.n0 c hc, if_false]
+    · rw [g0.2.2.2, hv]; simp only [ne_eq, hnz, not_false_eq_true, and_self, if_true]; rfl
+    · rw [(gen (ia + 8#64) q2).2.2.2, hv]
+      have q5 : ¬ (ia + 8#64 = ia) := fun e => q4 e.symm
+      simp only [ne_eq, hnz, not_false_eq_true, true_and, q5, if_false]
+      exact hI.li
+
+theorem closed_store (L : Lay) (h : Heap) (hC : Closed L h) (k : Link) (v : Option Node) (hv : ∀ m, v = some m → L.okN m) :
+    Closed L (store h k v) := by
+  cases k with
+  | headOf l => exact closed_setHead L h hC l v hv
+  | nextOf n => exact closed_setNext L h hC n v hv
+
+theorem load_ok (L : Lay) (h : Heap) (hC : Closed L h) (k : Link) (hk : okLink L k) (m : Node) (e : load h k = some m) : L.okN m := by
+  cases k with
+  | headOf l => exact hC.head l m hk e
+  | nextOf n => exact hC.next n m hk e
+
+/-- **tie T, `list_iterator_insert`** -/
+theorem iterator_insert_tie (L : Lay) (hL : L.WF) (mem : Mem) (h : Heap) (hR : Rep L mem h) (hC : Closed L h)
+    (ia : BitVec 64) (hF : Foreign L ia) (it : Iter) (hI : IterAt L mem ia it) (hk : okLink L it.prevnext) (hli : L.okL it.list)
+    (n : Node) (hn : L.okN n) :
+    (list_iterator_insert ia (L.A (.next n)) mem).ub = false ∧ (list_iterator_insert ia (L.A (.next n)) mem).exh = false ∧
+    Rep L (list_iterator_insert ia (L.A (.next n)) mem).mem (iteratorInsert h it n) ∧ Closed L (iteratorInsert h it n) ∧
+    IterAt L (list_iterator_insert ia (L.A (.next n)) mem).mem ia it := by
+  have hkc := okLink_ok L _ hk
+  have hn' : L.ok (.next n) := hn
+  have ht' : L.ok (.tail it.list) := hli
+  have hpn := hI.pn
+  have hcur : W mem (W mem ia) = encN L (load h it.prevnext) := by rw [hI.pn, hR _ hkc, val_cellOf]
+  have hlt : W mem (ia + 8#64) + 8#64 = L.A (.tail it.list) := by rw [hI.li, A_tail L hL _ hli]
+  obtain ⟨q1, q2, q3, q4⟩ := sep_self8 ia
+  have gen := fun p (h1 : sep p (L.A (cellOf it.prevnext)) = true) (h2 : sep p (L.A (.next n)) = true)
+      (h3 : sep p (L.A (.tail it.list)) = true) =>
+    iterator_insert_generated ia (L.A (.next n)) mem p (by rw [hpn]; exact h1) h2 (by rw [hlt, h3]; simp)
+      (by rw [hpn, sep_comm]; exact hF.s8 _ hkc) (by rw [sep_comm]; exact hF.s8 _ hn')
+      (by rw [hpn]; exact fun e => hF.n8 _ hkc e.symm) (fun e => hF.n8 _ hn' e.symm)
+  have gc := fun c (hc : L.ok c) => gen (L.A c) (A_sep L hL c _ hc hkc) (A_sep L hL c _ hc hn') (A_sep L hL c _ hc ht')
+  have g0 := gc _ hn'
+  have hcv : ∀ m, load h it.prevnext = some m → L.okN m := fun m e => load_ok L h hC _ hk m e
+  refine ⟨g0.1, g0.2.1, ?_, ?_, ⟨?_, ?_⟩⟩
+  · intro c hc
+    rw [(gc c hc).2.2, hcur, hlt, hpn, hR c hc]
+    unfold iteratorInsert
+    simp only [encN_eq_zero L hL _ hcv, A_inj L hL c _ hc ht', A_inj L hL c _ hc hn', A_inj L hL c _ hc hkc]
+    by_cases e : load h it.prevnext = none
+    · simp only [e, if_true, true_and, val_setTail, val_setNext, val_store, encT, encN]
+    · simp only [e, if_false, false_and, val_setNext, val_store, encN]
+  · unfold iteratorInsert
+    have c2 : Closed L (setNext (store h it.prevnext (some n)) n (load h it.prevnext)) :=
+      closed_setNext L _ (closed_store L h hC _ _ (by intro m e; cases e; exact hn)) n _ hcv
+    by_cases e : load h it.prevnext = none
+    · simp only [e, if_true]; rw [e] at c2; exact closed_setTail L _ c2 _ (.node n) hn
+    · simp only [e, if_false]; exact c2
+  · have g1 := gen ia (by rw [sep_comm]; exact hF.s0 _ hkc) (by rw [sep_comm]; exact hF.s0 _ hn') (by rw [sep_comm]; exact hF.s0 _ ht')
+    rw [g1.2.2, hlt, hpn]
+    have e1 : ¬ ia = L.A (.tail it.list) := fun e => hF.n0 _ ht' e.symm
+    have e2 : ¬ ia = L.A (.next n) := fun e => hF.n0 _ hn' e.symm
+    have e3 : ¬ ia = L.A (cellOf it.prevnext) := fun e => hF.n0 _ hkc e.symm
+    simp only [e1, e2, e3, and_false, if_false]
+  · have g1 := gen (ia + 8#64) (by rw [sep_comm]; exact hF.s8 _ hkc) (by rw [sep_comm]; exact hF.s8 _ hn')
+      (by rw [sep_comm]; exact hF.s8 _ ht')
+    rw [g1.2.2, hlt, hpn]
+    have e1 : ¬ ia + 8#64 = L.A (.tail it.list) := fun e => hF.n8 _ ht' e.symm
+    have e2 : ¬ ia + 8#64 = L.A (.next n) := fun e => hF.n8 _ hn' e.symm
+    have e3 : ¬ ia + 8#64 = L.A (cellOf it.prevnext) := fun e => hF.n8 _ hkc e.symm
+    simp only [e1, e2, e3, and_false, if_false]
+    exact hI.li
+
+theorem encT_containerOf (L : Lay) (k : Link) : encT L (containerOf k) = L.A (cellOf k) := by
+  cases k <;> rfl
+
+theorem okT_containerOf (L : Lay) (k : Link) (hk : okLink L k) : okT L (containerOf k) := by
+  cases k <;> exact hk
+
+theorem encT_eq_next (L : Lay) (hL : L.WF) (t : Tail) (ht : okT L t) (c0 : Node) (hc0 : L.okN c0) :
+    encT L t = L.A (.next c0) ↔ t = .node c0 := by
+  cases t with
+  | null =>
+    simp only [encT, reduceCtorEq, iff_false]
+    exact fun e => A_ne0 L hL (.next c0) hc0 e.symm
+  | node m =>
+    simp only [encT, Tail.node.injEq]
+    rw [A_inj L hL (.next m) (.next c0) ht hc0]
+    simp
+  | listAsNode l =>
+    simp only [encT, reduceCtorEq, iff_false]
+    rw [A_inj L hL (.head l) (.next c0) ht hc0]
+    simp
+
+theorem cellOf_ne_tail (k : Link) (l : Lid) : cellOf k ≠ .tail l := by
+  cases k <;> simp [cellOf]
+
+/-- **tie T, `list_iterator_remove`** (the iterator stands before a node, which is not its own successor) -/
+theorem iterator_remove_tie (L : Lay) (hL : L.WF) (mem : Mem) (h : Heap) (hR : Rep L mem h) (hC : Closed L h)
+    (ia : BitVec 64) (hF : Foreign L ia) (it : Iter) (hI : IterAt L mem ia it) (hk : okLink L it.prevnext) (hli : L.okL it.list)
+    (c0 : Node) (hld : load h it.prevnext = some c0) (hself : cellOf it.prevnext ≠ .next c0)
+    (r : Heap × Option Node) (hok : iteratorRemove h it = .ok r) :
+    (list_iterator_remove ia mem).ub = false ∧ (list_iterator_remove ia mem).exh = false ∧
+    (list_iterator_remove ia mem).ret = encN L r.2 ∧
+    Rep L (list_iterator_remove ia mem).mem r.1 ∧ Closed L r.1 ∧ IterAt L (list_iterator_remove ia mem).mem ia it := by
+  have hkc := okLink_ok L _ hk
+  have hc0 : L.okN c0 := load_ok L h hC _ hk c0 hld
+  have hc0' : L.ok (.next c0) := hc0
+  have ht' : L.ok (.tail it.list) := hli
+  have hpn := hI.pn
+  have hcur : W mem (W mem ia) = L.A (.next c0) := by rw [hI.pn, hR _ hkc, val_cellOf, hld]; rfl
+  have hlt : W mem (ia + 8#64) + 8#64 = L.A (.tail it.list) := by rw [hI.li, A_tail L hL _ hli]
+  have htv : W mem (L.A (.tail it.list)) = encT L (h.tail it.list) := hR _ ht'
+  have hnx : W mem (L.A (.next c0)) = encN L (h.next c0) := hR _ hc0'
+  have d1 : L.A (.next c0) ≠ L.A (.tail it.list) := by rw [Ne, A_inj L hL _ _ hc0' ht']; simp
+  have d2 : L.A (cellOf it.prevnext) ≠ L.A (.tail it.list) := by rw [Ne, A_inj L hL _ _ hkc ht']; exact cellOf_ne_tail _ _
+  have d3 : L.A (cellOf it.prevnext) ≠ L.A (.next c0) := by rw [Ne, A_inj L hL _ _ hkc hc0']; exact hself
+  have gen := fun p (h1 : sep p (L.A (cellOf it.prevnext)) = true) (h2 : sep p (L.A (.next c0)) = true)
+      (h3 : sep p (L.A (.tail it.list)) = true) =>
+    iterator_remove_generated ia mem p (by rw [hpn]; exact h1) (by rw [hcur]; exact h2) (by rw [hlt]; exact h3)
+      (by rw [hlt, sep_comm]; exact hF.s0 _ ht') (by rw [hlt]; exact fun e => hF.n0 _ ht' e.symm)
+      (by rw [hpn, sep_comm]; exact hF.s0 _ hkc) (by rw [hpn]; exact fun e => hF.n0 _ hkc e.symm)
+      (by rw [hcur, sep_comm]; exact hF.s0 _ hc0') (by rw [hcur]; exact fun e => hF.n0 _ hc0' e.symm)
+      (by rw [hcur, hlt]; exact A_sep L hL _ _ hc0' ht') (by rw [hcur, hlt]; exact d1)
+      (by rw [hpn, hlt]; exact A_sep L hL _ _ hkc ht') (by rw [hpn, hlt]; exact d2)
+      (by rw [hcur, hpn]; exact A_sep L hL _ _ hkc hc0') (by rw [hcur, hpn]; exact d3)
+  have gc := fun c (hc : L.ok c) => gen (L.A c) (A_sep L hL c _ hc hkc) (A_sep L hL c _ hc hc0') (A_sep L hL c _ hc ht')
+  have g0 := gc _ hc0'
+  -- the model's result
+  unfold iteratorRemove at hok
+  rw [hld] at hok
+  simp only [Except.ok.injEq] at hok
+  subst hok
+  simp only
+  have hn1 : (if h.tail it.list = Tail.node c0 then setTail h it.list (containerOf it.prevnext) else h).next c0 = h.next c0 := by
+    split <;> rfl
+  have hcond : (W mem (L.A (.tail it.list)) = L.A (.next c0)) ↔ h.tail it.list = .node c0 := by
+    rw [htv]; exact encT_eq_next L hL _ (hC.tail _ hli) c0 hc0
+  have hval : ∀ c, val L (setNext (store (if h.tail it.list = Tail.node c0 then setTail h it.list (containerOf it.prevnext) else h)
+        it.prevnext (h.next c0)) c0 none) c =
+      if c = .next c0 then 0#64 else if c = cellOf it.prevnext then encN L (h.next c0)
+      else if h.tail it.list = .node c0 ∧ c = .tail it.list then L.A (cellOf it.prevnext) else val L h c := by
+    intro c
+    rw [val_setNext, val_store]
+    by_cases e : h.tail it.list = .node c0
+    · simp only [e, if_true, true_and, val_setTail, encT_containerOf, encN]
+    · simp only [e, if_false, false_and, encN]
+  rw [hn1]
+  refine ⟨g0.1, g0.2.1, ?_, ?_, ?_, ⟨?_, ?_⟩⟩
+  · rw [g0.2.2.1, hcur, hnx, ← val_cellOf, hval, if_neg hself, if_pos rfl]
+  · intro c hc
+    rw [(gc c hc).2.2.2, hcur, hpn, hlt, hnx, hR c hc, hval]
+    simp only [A_inj L hL c _ hc hc0', A_inj L hL c _ hc hkc, A_inj L hL c _ hc ht', hcond]
+  · have c1 : Closed L (if h.tail it.list = Tail.node c0 then setTail h it.list (containerOf it.prevnext) else h) := by
+      split
+      · exact closed_setTail L h hC _ _ (okT_containerOf L _ hk)
+      · exact hC
+    exact closed_setNext L _ (closed_store L _ c1 _ _ (fun m e => hC.next c0 m hc0 e)) c0 none (by intro m e; cases e)
+  · have g1 := gen ia (by rw [sep_comm]; exact hF.s0 _ hkc) (by rw [sep_comm]; exact hF.s0 _ hc0') (by rw [sep_comm]; exact hF.s0 _ ht')
+    rw [g1.2.2.2, hcur, hpn, hlt]
+    have e1 : ¬ ia = L.A (.tail it.list) := fun e => hF.n0 _ ht' e.symm
+    have e2 : ¬ ia = L.A (.next c0) := fun e => hF.n0 _ hc0' e.symm
+    have e3 : ¬ ia = L.A (cellOf it.prevnext) := fun e => hF.n0 _ hkc e.symm
+    simp only [e1, e2, e3, and_false, if_false]
+  · have g1 := gen (ia + 8#64) (by rw [sep_comm]; exact hF.s8 _ hkc) (by rw [sep_comm]; exact hF.s8 _ hc0')
+      (by rw [sep_comm]; exact hF.s8 _ ht')
+    rw [g1.2.2.2, hcur, hpn, hlt]
+    have e1 : ¬ ia + 8#64 = L.A (.tail it.list) := fun e => hF.n8 _ ht' e.symm
+    have e2 : ¬ ia + 8#64 = L.A (.next c0) := fun e => hF.n8 _ hc0' e.symm
+    have e3 : ¬ ia + 8#64 = L.A (cellOf it.prevnext) := fun e => hF.n8 _ hkc e.symm
+    simp only [e1, e2, e3, and_false, if_false]
+    exact hI.li
+
 end Librfn.C09.Tie
